@@ -99,3 +99,11 @@ CLAIMS.update({
              "and scales sum, S, pi, pi_xy, theta. Each relation is also executed on the implementation (incl. `sfs fold --fill zero | sfs stat`) and compared with the model.",
         note=NOTE_COMMON + " In binary64 the relations hold up to rounding; the correspondence compares each side with the exact model value within 2^-30 relative."),
 })
+
+CLAIMS.update({
+    "C17": dict(
+        text="PARTIAL (proof over sfs's own transcribed code + exploration of third-party parsing). Lean theorems for every shape and input: once Array::new accepted a shape no product of a contiguous range of axis lengths overflows 64 bits (strides, element counts, running quotients; the zero-masked case of fix 004eece included), "
+             "spectra are only read at in-range positions (pi_xy cells, the nine kinship cells behind the 3x3 test, theta classes 1 <= i < n so n - i and C(n,2) are safe, shape[0]/shape[1] behind the dimension test), the statistic dispatch ends in a value or exactly the dimension / shape error, hypergeometric arguments do not underflow behind the zero test, "
+             "-p values saturate, the npy padding is 1..64 and an oversized header is an error value, population ids are contiguous so Map::shape cannot unwrap None. Explored: outcome classes of the real code over the full statistic x degenerate-shape grid, short / absurd inputs, option bounds and a mutation stream over all input formats; never a panic except at the 14 listed noodles-bcf sites.",
+        note=NOTE_COMMON + " The Lean model is total, so panics are ruled out site by site through guard theorems, not by a panic-outcome model; sites inside noodles / clap / std are outside the theorems. usize quantities that would need > 2^32 array elements to overflow (n^2 in Tajima's b2) are assumed out of reach. Known findings F18-F33 (dependency) are not repaired."),
+})
